@@ -253,8 +253,9 @@ def carrier_obligations(chk):
         I.on_elem_raises = keep_raises
         I.on_dict_raises = lambda d, r, path: None
         from pyvc.stmt import LoopSpec
-        I.loop_specs[(f"{UN}.StructuredTypeUnmarshaller.__call__", 0)] = LoopSpec("required-keys", lambda I, p, e, k: None,
-                                                                                  lambda I, p, e, k: [])
+        from props.routines import is_required_keys_loop
+        I.loop_specs[(f"{UN}.StructuredTypeUnmarshaller.__call__", is_required_keys_loop)] = LoopSpec("required-keys", lambda I, p, e, k: None,
+                                                                                                    lambda I, p, e, k: [])
         for k_ in (0, 1, 2):
             I.loop_specs[(f"{UN}.LiteralUnmarshaller.__call__", k_)] = LoopSpec(f"literals{k_}", lambda I, p, e, k: None,
                                                                                 lambda I, p, e, k: [])
